@@ -247,8 +247,10 @@ fn run_program(
 }
 
 /// Scripted schedule prefix. Each element is one of
-///   {"run": t, "until": {"kind": "store"|"load"|"cas"|"swap"|"lock"|"word"|..., "nth": n}}
-///       run thread t until it has been granted n events of that kind (stops right after the grant)
+///   {"run": t, "until": {"kind": "store"|"load"|"cas"|"swap"|"lock"|"word"|"site"..., "nth": n,
+///                        "ty": "bin"|"table"|"value", "w": "sc"|"ti"|"cnt"|"ls", "acc": "load"|"cas"|.., "before": bool}}
+///       run thread t until it has been granted n events of that kind (stops right after the grant;
+///       with "before": true it stops with the n-th matching access still pending)
 ///   {"run": t, "steps": n}     run thread t for n steps
 ///   {"finish": t}              run thread t until it is done or blocked
 fn run_script(exec: &Arc<Exec>, script: &[Value]) {
@@ -266,6 +268,7 @@ fn run_script(exec: &Arc<Exec>, script: &[Value]) {
             let kind = u.get("kind").and_then(|x| x.as_str()).unwrap_or("store");
             let nth = u.get("nth").and_then(|x| x.as_u64()).unwrap_or(1);
             let ty = u.get("ty").and_then(|x| x.as_str());
+            let before = u.get("before").and_then(|x| x.as_bool()).unwrap_or(false);
             let mut seen = 0;
             let mut guard = 0u64;
             while seen < nth && guard < 1_000_000 {
@@ -280,6 +283,21 @@ fn run_script(exec: &Arc<Exec>, script: &[Value]) {
                     if let Some(ty) = ty {
                         hit = sched::type_tag_pub(&p.args) == ty;
                     }
+                }
+                if hit && kind == "word" {
+                    // optional filters on the control word and the access kind
+                    let w = match p.args[1] { 1 => "sc", 2 => "ti", 3 => "cnt", 4 => "ls", _ => "red" };
+                    let acc = match p.args[2] { 1 => "load", 2 => "store", 3 => "cas", _ => "add" };
+                    if let Some(ww) = u.get("w").and_then(|x| x.as_str()) {
+                        hit = hit && ww == w;
+                    }
+                    if let Some(aa) = u.get("acc").and_then(|x| x.as_str()) {
+                        hit = hit && aa == acc;
+                    }
+                }
+                if hit && before && seen + 1 == nth {
+                    // stop with the matching access still pending
+                    break;
                 }
                 exec.grant(t);
                 if hit {
